@@ -5,6 +5,7 @@ import (
 	"fmt"
 	"net/url"
 	"sort"
+	"strings"
 )
 
 // NewURL builds a URL from a SimpleURL and a schema for validating and
@@ -128,7 +129,7 @@ func (u *URL) String() string {
 	// Path
 	path := "/"
 	for _, p := range u.Fragments {
-		path += p + "/"
+		path += escapeURLValue(p) + "/"
 	}
 
 	path = path[:len(path)-1]
@@ -166,10 +167,10 @@ func (u *URL) String() string {
 			panic(err)
 		}
 
-		param := "filter=" + string(mf)
+		param := "filter=" + escapeURLValue(string(mf))
 		urlParams = append(urlParams, param)
 	} else if u.Params.FilterLabel != "" {
-		urlParams = append(urlParams, "filter="+u.Params.FilterLabel)
+		urlParams = append(urlParams, "filter="+escapeURLValue(u.Params.FilterLabel))
 	}
 
 	// Pagination
@@ -177,14 +178,14 @@ func (u *URL) String() string {
 		if num, ok := u.Params.Page["number"]; ok {
 			urlParams = append(
 				urlParams,
-				"page%5Bnumber%5D="+fmt.Sprint(num),
+				"page%5Bnumber%5D="+escapeURLValue(fmt.Sprint(num)),
 			)
 		}
 
 		if size, ok := u.Params.Page["size"]; ok {
 			urlParams = append(
 				urlParams,
-				"page%5Bsize%5D="+fmt.Sprint(size),
+				"page%5Bsize%5D="+escapeURLValue(fmt.Sprint(size)),
 			)
 		}
 	}
@@ -209,6 +210,12 @@ func (u *URL) String() string {
 	params = params[:len(params)-1]
 
 	return path + params
+}
+
+// escapeURLValue escapes s so that it can be used as a path fragment or as the
+// value of a query parameter.
+func escapeURLValue(s string) string {
+	return strings.ReplaceAll(url.QueryEscape(s), "+", "%20")
 }
 
 // UnescapedString returns the same thing as String, but special characters are
